@@ -362,6 +362,49 @@ def check_selection(run, A):
     run.check(nn, 'R-SEL', 'output_sxr: noise power taken at the selected outputs', fn.loc(), '', 'NN is not N[selection]', construct=f'R-SEL::{q}::noise-selection')
 
 
+def check_same_postprocessing(run, A):
+    """R-SIB: SDR, SIR and SNR are three values of one kind; whatever is done to one ratio after `_sxr` (the mean over the sources under average_sources) is done to all
+    three in the same way - otherwise the returned triple mixes a per-source array with averages, and the averages no longer belong to the same set of sources."""
+    n = 0
+    for name in ('input_sxr', 'output_sxr'):
+        q = S + name
+        fn = A.prog.func(q)
+        g = A.graphs.get(fn)
+
+        def skeleton(t, depth=0):
+            t = strip_views(t)
+            if depth > 12:
+                return ('?',)
+            if call_parts(t)[0] == S + '_sxr':
+                return ('ratio',)
+            if t.op == 'gamma':
+                return ('if', t.args[0].id, skeleton(t.args[1], depth + 1), skeleton(t.args[2], depth + 1))
+            nm, pos, kw = call_parts(t)
+            if nm is not None and pos:
+                rest = tuple(repr(const_val(a)) for a in pos[1:]) + tuple(sorted((k, repr(const_val(v))) for k, v in kw.items()))
+                from ..walk import canon
+                return ('call', canon(nm), rest, skeleton(pos[0], depth + 1))
+            if t.op in ('binop', 'iop'):
+                a, b = skeleton(t.args[1], depth + 1), skeleton(t.args[2], depth + 1)
+                return ('op', t.args[0], a if const_val(strip_views(t.args[1])) is NOVAL else repr(const_val(strip_views(t.args[1]))),
+                        b if const_val(strip_views(t.args[2])) is NOVAL else repr(const_val(strip_views(t.args[2]))))
+            return ('?',)
+        for r in ret_alts(g):
+            r = strip_views(r)
+            vals = list(r.args[0]) if r.op == 'tuple' else list(r.args[1]) if r.op == 'dict' else []
+            if len(vals) != 3:
+                continue
+            sk = [skeleton(v) for v in vals]
+            if any('?' in repr(x) for x in sk):
+                run.unresolved('R-SIB', f'{name}: SDR, SIR and SNR are post-processed alike', fn.loc(getattr(r, 'node', None)), 'post-processing of a ratio not recognised')
+                continue
+            n += 1
+            run.check(sk[0] == sk[1] == sk[2], 'R-SIB', f'{name}: SDR, SIR and SNR are post-processed alike', fn.loc(getattr(r, 'node', None)), '',
+                      'the three returned ratios do not go through the same operations after _sxr (one of them misses / has an extra averaging step): the triple mixes '
+                      'per-source values with averages', construct=f'R-SIB::{q}::same-postprocessing')
+    run.floor('C19 returned (SDR, SIR, SNR) triples compared', n, 4)
+
+
 def check_return_dict(run, A):
     for name in ('input_sxr', 'output_sxr'):
         q = S + name
@@ -546,6 +589,7 @@ def check(run):
     check_self_exclusion(run, A)
     check_selection(run, A)
     check_return_dict(run, A)
+    check_same_postprocessing(run, A)
     check_si_sdr(run, A)
     check_snr(run, A)
     check_power_helper(run, A)
